@@ -47,26 +47,43 @@ type genCtx struct {
 }
 
 func (g *genCtx) thorough() bool { return g.tier == "thorough" }
-func (g *genCtx) count(k string)  { g.stat[k]++ }
+func (g *genCtx) count(k string) { g.stat[k]++ }
 
 var scenarios = map[string]func(g *genCtx){}
+
+// opWatchdog: no operation of any scenario takes anywhere near this long on a tree where calls honour their contexts (the longest
+// ones are the SDR retrievals with their 0.5 s back-offs and the concurrent workloads: well under a minute). An executor that has
+// not returned by then is sitting in a library call that ignores its context: the op is reported as a hang (a verdict, i.e. a
+// failing input) and the scenario goes on; the goroutine is left behind.
+var opWatchdog = 120 * time.Second
 
 func safeExec(op Op) (out string, verdict string) {
 	ex, ok := executors[op.Kind]
 	if !ok {
 		return "no-executor", ""
 	}
-	defer func() {
-		if r := recover(); r != nil {
-			out, verdict = "panic", fmt.Sprintf("panic: %v", r)
+	type res struct{ out, verdict string }
+	ch := make(chan res, 1)
+	go func() {
+		var r res
+		defer func() {
+			if p := recover(); p != nil {
+				r = res{"panic", fmt.Sprintf("panic: %v", p)}
+			}
+			ch <- r
+		}()
+		staleSeen = ""
+		r.out, r.verdict = ex(op.Args)
+		if staleSeen != "" && r.verdict == "" {
+			r.verdict = staleSeen
 		}
 	}()
-	staleSeen = ""
-	out, verdict = ex(op.Args)
-	if staleSeen != "" && verdict == "" {
-		verdict = staleSeen
+	select {
+	case r := <-ch:
+		return r.out, r.verdict
+	case <-time.After(opWatchdog):
+		return "hang", fmt.Sprintf("the operation had not returned after %v: a call of the library ignores its context", opWatchdog)
 	}
-	return out, verdict
 }
 
 // oneLine makes a verdict fit the line protocol: no spaces, no line breaks
@@ -117,7 +134,7 @@ func main() {
 		g := &genCtx{rng: rand.New(rand.NewSource(*seed)), tier: *tier, stat: map[string]int{}}
 		// a changed tree on which (say) every command times out would make each op wait for its context: after 25 ops that
 		// took longer than 1.9 s the rest of the scenario is skipped — the slow ops themselves already carry the verdicts
-		slow := 0
+		slow, hangs := 0, 0
 		// VERIF_ONLY=<kind>,… restricts a scenario to the op kinds that bear on the property being checked (the `dec`
 		// scenario reads it as a list of layer names instead)
 		var onlyKinds map[string]bool
@@ -135,9 +152,18 @@ func main() {
 				g.stat["skipped-after-25-slow-ops"]++
 				return
 			}
+			// two operations that never returned (see opWatchdog) already carry the verdict; the goroutines they left behind
+			// may hold library state, so nothing more is run in this process
+			if hangs >= 2 {
+				g.stat["skipped-after-2-hangs"]++
+				return
+			}
 			n++
 			t0 := time.Now()
 			o, v := safeExec(op)
+			if o == "hang" {
+				hangs++
+			}
 			if time.Since(t0) > 1900*time.Millisecond && op.Kind != "conc" && op.Kind != "concu" && op.Kind != "time" {
 				slow++
 			}
